@@ -614,7 +614,8 @@ inductive Res (α : Type)
   | raised
   | ok (a : α)
 
-/-- `AbbrBlockprocessor.run`.  `self.abbrs.pop(abbr)` raises `KeyError` when `abbr` has no definition. -/
+/-- `AbbrBlockprocessor.run`.  (Before the repair of F-C02-4 `self.abbrs.pop(abbr)` raised `KeyError` when `abbr` had no
+    definition; the `raised` outcome is kept in `Res` but no longer produced.) -/
 def abbrP (refs : Refs) (b : Str) (rest : List Str) : Res (Refs × List Str) :=
   match abbrSearch b with
   | none => .declined
@@ -627,7 +628,7 @@ def abbrP (refs : Refs) (b : Str) (rest : List Str) : Res (Refs × List Str) :=
     let rest := if isBlank (b.take st) then rest else rstripC '\n' (b.take st) :: rest
     if title = ['\'', '\''] || title = ['"', '"'] then
       if (abbrsOf refs).any (fun kv => kv.1 = abbr) then .ok (refs ++ [(abKey abbr, ([], none))], rest)
-      else .raised
+      else .ok (refs, rest)   -- `self.abbrs.pop(abbr, None)`: removing an undefined abbreviation is a no-op (repair of F-C02-4)
     else .ok (refs ++ [(abKey abbr, (title, none))], rest)
 
 /-! ### the dispatcher -/
